@@ -8,6 +8,7 @@ var extraWorlds = map[string]func() *World{}
 func init() {
 	extraWorlds["W5"] = worldMarkets
 	extraWorlds["W0"] = worldStartHeightOne
+	extraWorlds["W4"] = worldCrowd
 }
 
 // worldMarkets: bancor coins of three reserve ratios, tokens, pools (one of them with an order book), a coin that
@@ -58,4 +59,27 @@ type GenWait struct {
 	Cand  string `json:"cand"`
 	Coin  string `json:"c"`
 	Value string `json:"v"`
+}
+
+// worldCrowd: candidate v1 has all 1000 delegation slots taken (999 stakes of 3000 BIP, the smallest of 2000 BIP held by
+// d1000), v2 is a small second validator; CRRHUN is a reserve-ratio-100 coin worth 2 BIP per unit, so that a stake's size in
+// coin units and its value in base coin differ. Stake period 3.
+func worldCrowd() *World {
+	w := &World{Name: "W4", StakePeriod: 3, ExpirePeriod: 5, InitialHeight: 10197400}
+	for i := 1; i <= 4; i++ {
+		w.Accounts = append(w.Accounts, GenAccount{Name: fmt.Sprintf("a%d", i), Bal: map[string]string{"BIP": "1000000u", "CRRHUN": "20000u"}})
+	}
+	w.Accounts = append(w.Accounts, GenAccount{Name: "o1", Bal: map[string]string{"BIP": "10000u"}}, GenAccount{Name: "o2", Bal: map[string]string{"BIP": "10000u"}})
+	var st []GenStake
+	for i := 1; i <= 999; i++ {
+		st = append(st, GenStake{Owner: fmt.Sprintf("d%d", i), Coin: "BIP", Value: "3000u"})
+	}
+	st = append(st, GenStake{Owner: "d1000", Coin: "BIP", Value: "2000u"})
+	w.Candidates = []GenCandidate{
+		{Name: "v1", Owner: "o1", Reward: "o1", Control: "o1", Commission: 10, Validator: true, Stakes: st},
+		{Name: "v2", Owner: "o2", Reward: "o2", Control: "o2", Commission: 10, Validator: true, Stakes: []GenStake{{Owner: "o2", Coin: "BIP", Value: "5000u"}}},
+	}
+	w.Coins = []GenCoin{{Symbol: "CRRHUN", Crr: 100, Reserve: "160000u", Max: "10000000u", Owner: "a1"}}
+	withUSDT(w)
+	return w
 }
